@@ -875,6 +875,13 @@ def escaping_pointers():
         'local-array': (['PROCEDURE Take(BYVAL c : INTEGER, BYVAL amount : INTEGER)', '  DECLARE loc : ARRAY[1:2] OF INTEGER', '  loc[2] <- c', '  last <- ^loc[2]', '  last^ <- last^ + amount', '  OUTPUT "in ", last^, " ", loc[2]', 'ENDPROCEDURE'], 'CALL Take({A}, 2)'),
         'function-byref': (['FUNCTION Take(BYREF c : INTEGER, BYVAL amount : INTEGER) RETURNS INTEGER', '  last <- ^c', '  last^ <- last^ + amount', '  RETURN last^', 'ENDFUNCTION'], 'OUTPUT Take({A}, 2)'),
     }
+    # a field of a record parameter or of a local record (the record passed is `rec`, whatever {A} is)
+    for kind in ('PROCEDURE', 'FUNCTION'):
+        for mode in ('BYVAL', 'BYREF', 'LOCAL'):
+            hdr = '%s TakeR(%s)' % (kind, ('%s r : Rec, BYVAL c : INTEGER' % mode) if mode != 'LOCAL' else 'BYVAL c : INTEGER') + (' RETURNS INTEGER' if kind == 'FUNCTION' else '')
+            body = (['  DECLARE r : Rec', '  r.n <- c'] if mode == 'LOCAL' else []) + ['  last <- ^r.n', '  last^ <- last^ + 2', '  OUTPUT "in ", last^, " ", r.n'] + (['  RETURN last^'] if kind == 'FUNCTION' else [])
+            call = ('TakeR(rec, {A})' if mode != 'LOCAL' else 'TakeR({A})')
+            targets['record-field-%s-%s' % (mode.lower(), kind.lower())] = ([hdr] + body + ['END' + kind], ('CALL ' + call) if kind == 'PROCEDURE' else ('OUTPUT ' + call))
     for tname, (defs, call) in targets.items():
         for arg in ('g', 'arr[2]', 'rec.n'):
             for noise in (False, True):
@@ -1014,6 +1021,250 @@ def alias_used_after_value_replaced():
                     out.append(Case(J(L), stdin=b'7\n8\n9\n', files=dict(files), limits=dict(steps=20000), meta=dict(gen='alias-after-replace-' + alias, sample=False)))
     return out
 
+
+# ------------------------------------------------------------------ round g
+def parameter_list_shapes():
+    """parameter lists of every shape: names sharing a type (a, b : T), the pass mode written once and carried over, the mode changing after a
+    shared group, records / arrays-of-record elements / scalars in each position; the body writes to every parameter and the caller prints
+    every argument afterwards (BYVAL: unchanged, BYREF: changed); procedures and functions"""
+    out = []
+    shapes = [
+        ['BYREF a, b : Point', 'BYVAL s : Step'],
+        ['BYVAL a, b : Point', 'BYREF s : Step'],
+        ['BYREF a : Point', 'b : Point', 'BYVAL s : Step'],
+        ['a, b : Point', 'BYREF s : Step'],
+        ['BYREF a, b : Point', 's : Step'],
+        ['BYVAL s : Step', 'BYREF a, b : Point'],
+        ['BYREF s : Step', 'BYVAL a, b : Point', 'BYREF n : INTEGER'],
+        ['BYREF n, m : INTEGER', 'BYVAL a : Point', 'b : Point', 'BYREF s : Step'],
+        ['BYVAL n, m : INTEGER', 'BYREF a, b : Point', 'BYVAL s : Step', 'BYREF k : INTEGER'],
+        ['n : INTEGER', 'a, b : Point', 's : Step'],
+    ]
+    pre = ['TYPE Point', '  DECLARE x : INTEGER', '  DECLARE tags : ARRAY[1:2] OF INTEGER', 'ENDTYPE', 'TYPE Inner', '  DECLARE w : INTEGER', 'ENDTYPE',
+           'TYPE Step', '  DECLARE d : INTEGER', '  DECLARE sub : Inner', 'ENDTYPE',
+           'DECLARE p, q : Point', 'DECLARE st : Step', 'DECLARE i, j, kk : INTEGER', 'p.x <- 1', 'q.x <- 2', 'p.tags[1] <- 11', 'q.tags[2] <- 22', 'st.d <- 3', 'st.sub.w <- 4', 'i <- 5', 'j <- 6', 'kk <- 7']
+    argof = {'a': 'p', 'b': 'q', 's': 'st', 'n': 'i', 'm': 'j', 'k': 'kk'}
+    write = {'a': ['a.x <- a.x + 100', 'a.tags[1] <- 111'], 'b': ['b.x <- b.x + 100', 'b.tags[2] <- 222'], 's': ['s.d <- s.d + 100', 's.sub.w <- 444'], 'n': ['n <- n + 100'], 'm': ['m <- m + 100'], 'k': ['k <- k + 100']}
+    show = 'OUTPUT p.x, " ", p.tags[1], " ", q.x, " ", q.tags[2], " ", st.d, " ", st.sub.w, " ", i, " ", j, " ", kk'
+    import re as _re
+    for sh in shapes:
+        names = []
+        for part in sh:
+            names += [x.strip() for x in _re.sub(r'^(BYREF|BYVAL)\s+', '', part).split(':')[0].split(',')]
+        for kind in ('PROCEDURE', 'FUNCTION'):
+            hdr = '%s Move(%s)' % (kind, ', '.join(sh)) + (' RETURNS INTEGER' if kind == 'FUNCTION' else '')
+            body = sum([write[n] for n in names], [])
+            L = pre + [hdr] + ['  ' + b for b in body] + (['  RETURN 0'] if kind == 'FUNCTION' else []) + ['END' + kind, show]
+            call = 'Move(%s)' % ', '.join(argof[n] for n in names)
+            L += [('CALL ' + call) if kind == 'PROCEDURE' else ('OUTPUT ' + call), show, ('CALL ' + call) if kind == 'PROCEDURE' else ('OUTPUT ' + call), show]
+            out.append(Case(J(L), limits=dict(steps=20000), meta=dict(gen='parameter-list-shapes', sample=False)))
+    return out
+
+def stray_signals_after_legal_ones():
+    """a BREAK / CONTINUE / RETURN that is legal is executed first, then another one that is not (outside any loop of its own routine, at the
+    top level, in a procedure, in a function called from a loop of the caller, in a loop condition): the diagnostic names the statement that
+    failed, and a stray signal never ends or continues a loop of the caller"""
+    out = []
+    legal = {'BREAK': ['FOR w <- 1 TO 3', '  IF w = 2 THEN', '    BREAK', '  ENDIF', 'NEXT w', 'OUTPUT "warm ", w'],
+             'CONTINUE': ['FOR w <- 1 TO 3', '  IF w = 2 THEN', '    CONTINUE', '  ENDIF', '  OUTPUT "warm ", w', 'NEXT w']}
+    for sig in ('BREAK', 'CONTINUE'):
+        for place in ('top', 'procedure', 'function', 'function-in-loop', 'function-in-condition', 'procedure-in-loop', 'nested-if'):
+            for warm in (True, False):
+                L = ['DECLARE w, n : INTEGER'] + (legal[sig] if warm else [])
+                if place == 'top':
+                    L += ['OUTPUT "before"', 'IF n = 0 THEN', '  ' + sig, 'ENDIF', 'OUTPUT "after"']
+                elif place == 'nested-if':
+                    L += ['OUTPUT "before"', 'IF n = 0 THEN', '  IF n < 1 THEN', '    OUTPUT "inner"', '    ' + sig, '  ENDIF', 'ENDIF', 'OUTPUT "after"']
+                elif place == 'procedure':
+                    L += ['PROCEDURE Stray()', '  OUTPUT "in"', '  IF n = 0 THEN', '    ' + sig, '  ENDIF', '  OUTPUT "still in"', 'ENDPROCEDURE', 'CALL Stray()', 'OUTPUT "after"']
+                elif place == 'procedure-in-loop':
+                    L += ['PROCEDURE Stray()', '  OUTPUT "in"', '  ' + sig, 'ENDPROCEDURE', 'FOR n <- 1 TO 3', '  OUTPUT "pass ", n', '  CALL Stray()', '  OUTPUT "rest ", n', 'NEXT n', 'OUTPUT "after"']
+                elif place == 'function':
+                    L += ['FUNCTION Stray() RETURNS INTEGER', '  IF n = 0 THEN', '    ' + sig, '  ENDIF', '  RETURN 1', 'ENDFUNCTION', 'OUTPUT Stray()', 'OUTPUT "after"']
+                elif place == 'function-in-loop':
+                    L += ['FUNCTION Stray(v : INTEGER) RETURNS INTEGER', '  IF v = 2 THEN', '    ' + sig, '  ENDIF', '  RETURN v * 10', 'ENDFUNCTION',
+                          'FOR n <- 1 TO 3', '  OUTPUT "pass ", n', '  OUTPUT Stray(n)', '  OUTPUT "rest ", n', 'NEXT n', 'OUTPUT "after"']
+                else:
+                    L += ['FUNCTION Stray(v : INTEGER) RETURNS BOOLEAN', '  IF v = 2 THEN', '    ' + sig, '  ENDIF', '  RETURN v < 3', 'ENDFUNCTION',
+                          'n <- 0', 'FOR w <- 1 TO 2', '  n <- 0', '  WHILE Stray(n)', '    n <- n + 1', '    OUTPUT "inner ", n', '  ENDWHILE', '  OUTPUT "outer ", w', 'NEXT w', 'OUTPUT "after"']
+                out.append(Case(J(L), limits=dict(steps=20000), meta=dict(gen='stray-signal-' + place, sample=False)))
+                if place in ('top', 'procedure', 'function'):
+                    ent = sum(gen.to_entries(L), []) + ['"next"', sig, '1 + 1']
+                    out.append(Case(mode='repl', stdin=J(ent), limits=dict(steps=20000), meta=dict(gen='stray-signal-repl-' + place, sample=False)))
+    for place in ('top', 'procedure'):
+        L = ['FUNCTION Ok() RETURNS INTEGER', '  RETURN 1', 'ENDFUNCTION', 'OUTPUT Ok()']
+        L += (['OUTPUT "before"', 'RETURN 5', 'OUTPUT "after"'] if place == 'top' else ['PROCEDURE P()', '  OUTPUT "in"', '  RETURN 5', 'ENDPROCEDURE', 'CALL P()', 'OUTPUT "after"'])
+        out.append(Case(J(L), limits=dict(steps=20000), meta=dict(gen='stray-return-' + place, sample=False)))
+    return out
+
+def input_at_end_of_input_with_files_open():
+    """INPUT (and READ) reached when standard input has no line left -- at once, or after the lines that were there -- while WRITE, APPEND
+    and RANDOM handles hold data not yet closed, in the main program, in a routine and at the prompt: the program goes on (INPUT yields an
+    empty line) and everything written reaches the files"""
+    out = []
+    for handle in ('write', 'append', 'random', 'two'):
+        for where in ('main', 'procedure', 'function'):
+            for nlines in (0, 1):
+                opens = {'write': ['OPENFILE "j.txt" FOR WRITE', 'WRITEFILE "j.txt", "one"', 'WRITEFILE "j.txt", "two"'],
+                         'append': ['OPENFILE "old.txt" FOR APPEND', 'WRITEFILE "old.txt", "added"'],
+                         'random': ['OPENFILE "r.dat" FOR RANDOM', 'rec <- "r1"', 'PUTRECORD "r.dat", rec', 'SEEK "r.dat", 2', 'rec <- "r2"', 'PUTRECORD "r.dat", rec'],
+                         'two': ['OPENFILE "j.txt" FOR WRITE', 'WRITEFILE "j.txt", "one"', 'OPENFILE "r.dat" FOR RANDOM', 'rec <- "r1"', 'PUTRECORD "r.dat", rec']}[handle]
+                ask = ['INPUT Answer', 'OUTPUT "got [", Answer, "]"', 'INPUT Second', 'OUTPUT "got [", Second, "]"']
+                L = ['DECLARE Answer, Second, rec : STRING'] + opens + ['OUTPUT "opened"']
+                if where == 'main':
+                    L += ask
+                elif where == 'procedure':
+                    L += ['PROCEDURE Ask()'] + ['  ' + a for a in ask] + ['ENDPROCEDURE', 'CALL Ask()']
+                else:
+                    L += ['FUNCTION Ask() RETURNS INTEGER'] + ['  ' + a for a in ask] + ['  RETURN 1', 'ENDFUNCTION', 'OUTPUT Ask()']
+                L += ['OUTPUT "after"'] + (['WRITEFILE "j.txt", "answer=" & Answer'] if handle in ('write', 'two') else [])
+                for closes in (True, False):
+                    L2 = L + ((['CLOSEFILE "j.txt"'] if handle in ('write', 'two') else []) + (['CLOSEFILE "old.txt"'] if handle == 'append' else []) + (['CLOSEFILE "r.dat"'] if handle in ('random', 'two') else []) if closes else []) + ['OUTPUT "end"']
+                    out.append(Case(J(L2), stdin=b'typed\n' * nlines, files={'old.txt': b'kept\n'}, limits=dict(steps=20000), meta=dict(gen='input-at-end-with-files', sample=False)))
+                if where == 'main':
+                    out.append(Case(mode='repl', stdin=J(L[:-1] if handle not in ('write', 'two') else L[:-2]), files={'old.txt': b'kept\n'}, limits=dict(steps=20000), meta=dict(gen='input-at-end-with-files-repl', sample=False)))
+    return out
+
+def continue_and_break_positions():
+    """CONTINUE and BREAK in every loop kind, taken on the first, a middle and the LAST pass, after a statement that changes what the loop
+    condition reads (a counter, the read position of a file): the condition is tested again after CONTINUE exactly as after a normal pass"""
+    out = []
+    files = {'lines.txt': b'a\n---\nb\nc\n---\n'}
+    for sig in ('CONTINUE', 'BREAK'):
+        for at in (1, 2, 3):
+            loops = {
+                'while': ['n <- 0', 'WHILE n < 3', '  n <- n + 1', '  OUTPUT "pass ", n', '  IF n = %d THEN' % at, '    ' + sig, '  ENDIF', '  OUTPUT "rest ", n', 'ENDWHILE', 'OUTPUT "after ", n'],
+                'repeat': ['n <- 0', 'REPEAT', '  n <- n + 1', '  OUTPUT "pass ", n', '  IF n = %d THEN' % at, '    ' + sig, '  ENDIF', '  OUTPUT "rest ", n', 'UNTIL n >= 3', 'OUTPUT "after ", n'],
+                'for': ['FOR n <- 1 TO 3', '  OUTPUT "pass ", n', '  IF n = %d THEN' % at, '    ' + sig, '  ENDIF', '  OUTPUT "rest ", n', 'NEXT n', 'OUTPUT "after ", n'],
+                'for-down': ['FOR n <- 3 TO 1 STEP -1', '  OUTPUT "pass ", n', '  IF n = %d THEN' % (4 - at), '    ' + sig, '  ENDIF', '  OUTPUT "rest ", n', 'NEXT n', 'OUTPUT "after ", n'],
+                'while-nested': ['n <- 0', 'WHILE n < 3', '  n <- n + 1', '  FOR m <- 1 TO 2', '    IF (n = %d) AND (m = 2) THEN' % at, '      ' + sig, '    ENDIF', '    OUTPUT n, " ", m', '  NEXT m', 'ENDWHILE', 'OUTPUT "after ", n'],
+            }
+            for lname, body in loops.items():
+                for where in ('main', 'procedure'):
+                    L = ['DECLARE n, m : INTEGER'] + (body if where == 'main' else ['PROCEDURE Run()'] + ['  ' + b for b in body] + ['ENDPROCEDURE', 'CALL Run()', 'CALL Run()'])
+                    out.append(Case(J(L), limits=dict(steps=20000), meta=dict(gen='loop-signal-' + lname, sample=False)))
+        # the read loop over a file: the signal taken on the pass that consumed the last line
+        for last in ('---', 'c'):
+            content = b'a\n---\nb\nc\n' + (b'---\n' if last == '---' else b'')
+            L = ['DECLARE line : STRING', 'DECLARE fields : INTEGER', 'OPENFILE "lines.txt" FOR READ', 'fields <- 0', 'WHILE NOT EOF("lines.txt")', '  READFILE "lines.txt", line', '  OUTPUT "[", line, "]"',
+                 '  IF line = "---" THEN', '    ' + sig, '  ENDIF', '  fields <- fields + 1', 'ENDWHILE', 'OUTPUT "fields=", fields', 'CLOSEFILE "lines.txt"']
+            out.append(Case(J(L), files={'lines.txt': content}, limits=dict(steps=20000), meta=dict(gen='loop-signal-read-loop', sample=False)))
+            L = ['DECLARE line : STRING', 'DECLARE fields : INTEGER', 'OPENFILE "lines.txt" FOR READ', 'fields <- 0', 'REPEAT', '  READFILE "lines.txt", line', '  OUTPUT "[", line, "]"',
+                 '  IF line = "---" THEN', '    ' + sig, '  ENDIF', '  fields <- fields + 1', 'UNTIL EOF("lines.txt")', 'OUTPUT "fields=", fields', 'CLOSEFILE "lines.txt"']
+            out.append(Case(J(L), files={'lines.txt': content}, limits=dict(steps=20000), meta=dict(gen='loop-signal-read-loop', sample=False)))
+    return out
+
+def history_independence():
+    """a block of probes (numeric conversions both ways, REAL output, REAL arithmetic, string and date built-ins) evaluated before and again
+    after each operator and built-in has been executed on operands of every accepted type (REAL DIV and MOD, INT, RAND, comparisons, casts,
+    failed conversions at the prompt): what an expression yields never depends on what was evaluated before it"""
+    probes = ['OUTPUT NUM_TO_STR(0.3), " ", NUM_TO_STR(19.99), " ", NUM_TO_STR(2.675), " ", NUM_TO_STR(1 / 3)',
+              'OUTPUT STR_TO_NUM("0.1") = 0.1, " ", STR_TO_NUM("2.7") = 2.7, " ", REAL("19.99") = 19.99, " ", STR_TO_NUM(NUM_TO_STR(19.99)) = 19.99',
+              'OUTPUT 0.1 + 0.2, " ", 1 / 3, " ", 2 / 3, " ", 10 / 4, " ", 0.1 * 3, " ", 1.1 * 1.1, " ", 7.0 - 0.7',
+              'OUTPUT INT(2.7), " ", INT(0 - 2.7), " ", 7.5 DIV 2, " ", 7 DIV 2, " ", 7.5 MOD 2, " ", INTEGER(2.999999), " ", REAL(3)',
+              'OUTPUT MID("abcdef", 2, 3), " ", LENGTH("abc"), " ", TO_UPPER("abc"), " ", 1/2/2003 < 2/2/2003, " ", DAYINDEX(1/2/2003)']
+    ops = ['x <- 7.5 DIV 2', 'x <- 7 DIV 2.5', 'x <- 7.5 DIV 2.5', 'x <- DIV(7.5, 2)', 'x <- 7.5 MOD 2', 'x <- MOD(7.5, 2.5)', 'x <- INT(0 - 2.5)', 'r <- RAND(10)', 'r <- 1 / 3', 'r <- 0.1 + 0.2',
+           'x <- INTEGER(2.9)', 'r <- REAL("0.3")', 'r <- STR_TO_NUM("0.7")', 's <- NUM_TO_STR(0.7)', 'b <- 0.1 + 0.2 = 0.3', 'b <- 1.5 < 2', 'x <- INTEGER("12")', 'r <- SQRT(2.0)', 's <- STRING(2.5)',
+           'r <- 0 - 0.1', 'x <- 9223372036854775807 + 1', 'x <- 7 DIV (0 - 2)', 'r <- 7.5 / 0.3']
+    pre = ['DECLARE x : INTEGER', 'DECLARE r : REAL', 'DECLARE s : STRING', 'DECLARE b : BOOLEAN']
+    out = []
+    for op in ops:
+        L = pre + probes + ['OUTPUT "-- after ", "%s"' % op.replace('"', "'"), op] + probes
+        out.append(Case(J(L), limits=dict(steps=20000), meta=dict(gen='history-independence', sample=False)))
+    # one REPL session: probes, then every operation followed by the probes (echo forms), failed operations included
+    ent = list(pre)
+    for p in probes:
+        ent.append(p)
+    for op in ops + ['x <- 1 DIV 0', 'r <- STR_TO_NUM("abc")', 'x <- INTEGER("x")', 'r <- 1.0 / 0']:
+        ent += [op, 'NUM_TO_STR(0.3)', 'STR_TO_NUM("0.1") = 0.1', '0.1 + 0.2', '7.5 DIV 2', 'NUM_TO_STR(19.99)', '1 / 3']
+    out.append(Case(mode='repl', stdin=J(ent), limits=dict(steps=60000), meta=dict(gen='history-independence-repl', sample=False)))
+    return out
+
+def pointer_targets_across_user_types():
+    """`p <- ^v` where the pointer type's target is a user type and v is of ANOTHER user type of the same kind (two enumerated types, two
+    record types, two pointer types), or of the right one; also through array elements and record fields: always rejected for the other
+    type, and p^ afterwards still yields values of the declared type"""
+    out = []
+    pre = ['TYPE Season = (Spring, Summer, Autumn, Winter)', 'TYPE Day = (Mon, Tue, Wed)', 'TYPE Account', '  DECLARE balance : INTEGER', 'ENDTYPE', 'TYPE Student', '  DECLARE balance : INTEGER', '  DECLARE year : INTEGER', 'ENDTYPE',
+           'TYPE IntPtr = ^INTEGER', 'TYPE RealPtr = ^REAL', 'TYPE SeasonPtr = ^Season', 'TYPE AccountPtr = ^Account', 'TYPE IntPtrPtr = ^IntPtr',
+           'DECLARE s : Season', 'DECLARE d : Day', 'DECLARE a : Account', 'DECLARE st : Student', 'DECLARE ip : IntPtr', 'DECLARE rp : RealPtr', 'DECLARE n : INTEGER', 'DECLARE x : REAL',
+           'DECLARE sp : SeasonPtr', 'DECLARE ap : AccountPtr', 'DECLARE pp : IntPtrPtr', 'DECLARE days : ARRAY[1:2] OF Day', 'DECLARE seasons : ARRAY[1:2] OF Season',
+           's <- Summer', 'd <- Tue', 'a.balance <- 10', 'st.balance <- 20', 'st.year <- 3', 'n <- 7', 'x <- 7.5', 'ip <- ^n', 'rp <- ^x', 'days[1] <- Wed', 'seasons[1] <- Winter']
+    tries = [('sp', '^s', 'sp^'), ('sp', '^d', 'sp^'), ('sp', '^days[1]', 'sp^'), ('sp', '^seasons[1]', 'sp^'), ('ap', '^a', 'ap^.balance'), ('ap', '^st', 'ap^.balance'),
+             ('pp', '^ip', 'pp^^'), ('pp', '^rp', 'pp^^'), ('ip', '^x', 'ip^'), ('ip', '^st.year', 'ip^'), ('sp', '^n', 'sp^')]
+    for p, src, rd in tries:
+        L = pre + ['%s <- %s' % (p, src), 'OUTPUT "accepted"', 'OUTPUT %s' % rd]
+        out.append(Case(J(L), limits=dict(steps=5000), meta=dict(gen='pointer-targets-across-types', sample=False)))
+        L = pre + ['PROCEDURE Set()', '  %s <- %s' % (p, src), '  OUTPUT "accepted"', 'ENDPROCEDURE', 'CALL Set()', 'OUTPUT %s' % rd]
+        out.append(Case(J(L), limits=dict(steps=5000), meta=dict(gen='pointer-targets-across-types', sample=False)))
+    ent = sum(gen.to_entries(pre), [])
+    for p, src, rd in tries:
+        ent += ['%s <- %s' % (p, src), rd]
+    out.append(Case(mode='repl', stdin=J(ent), limits=dict(steps=20000), meta=dict(gen='pointer-targets-across-types-repl', sample=False)))
+    return out
+
+def argument_type_errors_by_position():
+    """an argument of a wrong type (another enumerated type, another record type, STRING for INTEGER) or of a convertible type (INTEGER for
+    REAL, CHAR for STRING) at each position of parameter lists that mix BYREF and BYVAL: the wrong type is rejected before the body runs,
+    whatever stands before it in the list; the convertible one is converted for BYVAL and rejected for BYREF"""
+    out = []
+    pre = ['TYPE Color = (Red, Green, Blue)', 'TYPE Season = (Spring, Summer, Autumn, Winter)', 'TYPE A', '  DECLARE v : INTEGER', 'ENDTYPE', 'TYPE B', '  DECLARE v : INTEGER', 'ENDTYPE',
+           'DECLARE count : INTEGER', 'DECLARE ratio : REAL', 'DECLARE shade : Color', 'DECLARE when : Season', 'DECLARE ra : A', 'DECLARE rb : B', 'DECLARE txt : STRING', 'DECLARE ch : CHAR',
+           'count <- 1', 'ratio <- 1.5', 'shade <- Green', 'when <- Winter', 'ra.v <- 1', 'rb.v <- 2', 'txt <- "t"', "ch <- 'c'"]
+    params = {'INTEGER': ('n', 'count', ['txt', 'ratio', 'shade']), 'REAL': ('x', 'ratio', ['count', 'txt']), 'Color': ('c', 'shade', ['when', 'count']),
+              'A': ('r', 'ra', ['rb', 'count']), 'STRING': ('t', 'txt', ['ch', 'count'])}
+    import itertools as _it
+    for m1, m2 in _it.product(('BYREF', 'BYVAL'), repeat=2):
+        for t1, t2 in (('INTEGER', 'Color'), ('Color', 'INTEGER'), ('INTEGER', 'REAL'), ('A', 'STRING'), ('REAL', 'A'), ('STRING', 'Color')):
+            n1, ok1, bad1 = params[t1]; n2, ok2, bad2 = params[t2]
+            for kind in ('PROCEDURE', 'FUNCTION'):
+                hdr = '%s Paint(%s %s : %s, %s %s : %s)' % (kind, m1, n1, t1, m2, n2 + '2', t2) + (' RETURNS INTEGER' if kind == 'FUNCTION' else '')
+                body = ['  OUTPUT "body runs"'] + (['  OUTPUT %s2 + 1' % n2] if t2 in ('Color', 'INTEGER', 'REAL') else ['  OUTPUT "second"']) + (['  RETURN 0'] if kind == 'FUNCTION' else [])
+                calls = [(ok1, ok2)] + [(ok1, b) for b in bad2] + [(b, ok2) for b in bad1]
+                for a1, a2 in calls:
+                    call = 'Paint(%s, %s)' % (a1, a2)
+                    L = pre + [hdr] + body + ['END' + kind, ('CALL ' + call) if kind == 'PROCEDURE' else ('OUTPUT ' + call), 'OUTPUT "after"']
+                    out.append(Case(J(L), limits=dict(steps=5000), meta=dict(gen='argument-type-by-position', sample=False)))
+    return out
+
+def names_differing_in_case():
+    """identifiers are case sensitive: a name that differs from a declared one only in letter case is another name -- undeclared (an error
+    under --pedantic, a new variable otherwise) in assignment, INPUT, FOR, expressions, calls, field and type names, in the main program and
+    in routines, with the declared name global or local"""
+    out = []
+    uses = {'assign': ['total <- 5', 'OUTPUT "t ", total'], 'input': ['INPUT total', 'OUTPUT "t ", total'], 'for': ['FOR total <- 1 TO 2', '  OUTPUT "it"', 'NEXT total'], 'read': ['OUTPUT total + 1'],
+            'upper': ['TOTAL <- 6', 'OUTPUT "T ", TOTAL'], 'element': ['list[1] <- 3', 'OUTPUT List[1]'], 'call': ['CALL show()'], 'function': ['OUTPUT twice(2)'], 'field': ['rec.N <- 4', 'OUTPUT rec.n'],
+            'type': ['DECLARE z : point', 'OUTPUT "declared"'], 'enum': ['OUTPUT red'], 'constant': ['OUTPUT limit'], 'readfile': ['OPENFILE "in.txt" FOR READ', 'READFILE "in.txt", line', 'OUTPUT Line, "|", line']}
+    pre = ['TYPE Point', '  DECLARE n : INTEGER', 'ENDTYPE', 'TYPE Color = (Red, Green)', 'CONSTANT Limit = 9', 'DECLARE Total : INTEGER', 'DECLARE List : ARRAY[1:2] OF INTEGER', 'DECLARE rec : Point', 'DECLARE Line : STRING',
+           'Total <- 1', 'List[1] <- 2', 'Line <- "L"', 'PROCEDURE Show()', '  OUTPUT "shown"', 'ENDPROCEDURE', 'FUNCTION Twice(v : INTEGER) RETURNS INTEGER', '  RETURN v * 2', 'ENDFUNCTION']
+    for uname, use in uses.items():
+        for where in ('main', 'procedure', 'local-decl'):
+            for ped in ('', '-p'):
+                if where == 'main':
+                    L = pre + use
+                elif where == 'procedure':
+                    L = pre + ['PROCEDURE Work()'] + ['  ' + u for u in use] + ['ENDPROCEDURE', 'CALL Work()']
+                else:
+                    L = pre + ['PROCEDURE Work()', '  DECLARE Sum : INTEGER', '  Sum <- 1', '  sum <- 2', '  OUTPUT Sum'] + ['  ' + u for u in use] + ['ENDPROCEDURE', 'CALL Work()']
+                L += ['OUTPUT "Total=", Total, " List=", List[1], " Line=", Line']
+                out.append(Case(J(L), pedantic=ped, stdin=b'8\n', files={'in.txt': b'first\n'}, limits=dict(steps=5000), meta=dict(gen='names-differing-in-case', sample=False)))
+    return out
+
+def failing_calls_then_probes():
+    """REPL sessions in which a call fails INSIDE the body of a user function or procedure, or inside a built-in, and the session goes on:
+    bare expressions are still echoed in the documented form, statements still run, a later call of the same routine still works, with
+    arithmetic of every precedence level among the probes"""
+    out = []
+    defs = ['FUNCTION Inv(x : INTEGER) RETURNS REAL', '  RETURN 1 / x', 'ENDFUNCTION', '', 'PROCEDURE Half(x : INTEGER)', '  OUTPUT 10 DIV x', 'ENDPROCEDURE', '',
+            'FUNCTION Deep(x : INTEGER) RETURNS REAL', '  RETURN Inv(x) + 1', 'ENDFUNCTION', '', 'FUNCTION Cut(s : STRING) RETURNS STRING', '  RETURN MID(s, 5, 2)', 'ENDFUNCTION', '',
+            'PROCEDURE Loud()', '  1 + 1', '  OUTPUT "loud"', 'ENDPROCEDURE', '']
+    fails = ['Inv(0)', 'CALL Half(0)', 'Deep(0)', 'Cut("ab")', 'MID("ab", 5, 1)', 'OUTPUT Inv(0)', 'y <- Inv(0)', 'Inv("x")', 'CALL Half()', 'LENGTH(5)', 'CALL Nowhere()', 'Inv(1 DIV 0)']
+    probes = ['7 / 2', '7 DIV 2', '2 + 3 * 4 & "!"', '1 + 2 < 4 AND NOT FALSE', '"s"', "'c'", 'TRUE', '1/2/2003', 'Inv(4)', 'CALL Half(5)', 'CALL Loud()', 'y <- 3', 'y', '-y + 2 * (y - 1)']
+    for f in fails:
+        ent = list(defs) + ['DECLARE y : REAL', '1 + 1'] + probes[:4] + [f] + probes + [f] + probes[:6]
+        out.append(Case(mode='repl', stdin=J(ent), limits=dict(steps=30000), meta=dict(gen='failing-calls-then-probes', sample=False)))
+    return out
+
 def extra(pid, tier, rng):
     """the families each property's check runs in addition to its own generators"""
     if pid == 'C01':
@@ -1022,28 +1273,31 @@ def extra(pid, tier, rng):
         c += nodes_evaluated_twice(rng) + identifier_targets_by_binding() + lexer_failure_then_probe(rng) + side_effects_in_subexpressions() + array_scope_matrix()[::3] + scalar_and_array_share_a_name() + pointer_to_implicit_record() + failing_record_creation() + runfile_with_handles() + declaredness_changes_per_activation()[::2] + records_with_array_fields_in_files()
         c += reentrant_nodes() + creation_fails_then_probe() + escaping_pointers() + callers_locals_are_invisible()[::2] + byref_argument_resolution() + state_dependent_type_bodies() + loop_counter_rebound() + errors_below_statements()[::7]
         c += alias_used_after_value_replaced()[::2]
+        c += parameter_list_shapes() + stray_signals_after_legal_ones()[::2] + input_at_end_of_input_with_files_open()[::2] + continue_and_break_positions()[::2]
+        c += history_independence()[::3]
+        c += pointer_targets_across_user_types() + argument_type_errors_by_position()[::9] + names_differing_in_case()[::3] + failing_calls_then_probes()
         c += rng.sample(retyped_sites(rng, n_orders=1), 40) + rng.sample(nested_undeclared(rng), 20) + undeclared_field_vs_names()[::3]
         return c
-    if pid == 'C02': return nodes_evaluated_twice(rng) + lexer_failure_then_probe(rng) + concat_matrix() + retyped_sites(rng, ['plus', 'minus', 'div', 'concat', 'less', 'not', 'and', 'length', 'mid']) + reentrant_nodes()
-    if pid == 'C03': return [c for c in identifier_targets_by_binding() if '-for-' in c.meta['gen']] + retyped_sites(rng, ['while', 'repeat', 'if', 'case', 'for', 'forstep', 'not']) + shadowed_condition(rng) + reentrant_nodes() + loop_counter_rebound()
-    if pid == 'C04': return identifier_targets_by_binding() + array_scope_matrix() + side_effects_in_subexpressions() + call_type_matrix() + scope_change_in_activation(rng) + nested_undeclared(rng) + alias_then_replace() + reentrant_nodes() + callers_locals_are_invisible() + byref_argument_resolution()
-    if pid == 'C05': return [c for c in identifier_targets_by_binding() if 'input' in c.meta['gen'] or 'assign' in c.meta['gen']] + call_type_matrix() + array_cross_types() + retyped_sites(rng, ['store', 'byval', 'fn', 'index']) + shadowed_types() + loop_counter_rebound() + creation_fails_then_probe()
-    if pid == 'C06': return array_scope_matrix() + side_effects_in_subexpressions() + redeclared_bounds(rng) + retyped_sites(rng, ['index']) + array_cross_types() + byref_argument_resolution() + state_dependent_type_bodies()
-    if pid == 'C07': return shadowed_types() + alias_then_replace() + undeclared_field_vs_names() + side_effects_in_subexpressions() + state_dependent_type_bodies()
+    if pid == 'C02': return nodes_evaluated_twice(rng) + lexer_failure_then_probe(rng) + concat_matrix() + retyped_sites(rng, ['plus', 'minus', 'div', 'concat', 'less', 'not', 'and', 'length', 'mid']) + reentrant_nodes() + history_independence() + failing_calls_then_probes()
+    if pid == 'C03': return [c for c in identifier_targets_by_binding() if '-for-' in c.meta['gen']] + retyped_sites(rng, ['while', 'repeat', 'if', 'case', 'for', 'forstep', 'not']) + shadowed_condition(rng) + reentrant_nodes() + loop_counter_rebound() + stray_signals_after_legal_ones() + continue_and_break_positions()
+    if pid == 'C04': return identifier_targets_by_binding() + array_scope_matrix() + side_effects_in_subexpressions() + call_type_matrix() + scope_change_in_activation(rng) + nested_undeclared(rng) + alias_then_replace() + reentrant_nodes() + callers_locals_are_invisible() + byref_argument_resolution() + parameter_list_shapes() + argument_type_errors_by_position()[::2] + names_differing_in_case() + scalar_and_array_share_a_name()
+    if pid == 'C05': return [c for c in identifier_targets_by_binding() if 'input' in c.meta['gen'] or 'assign' in c.meta['gen']] + call_type_matrix() + array_cross_types() + retyped_sites(rng, ['store', 'byval', 'fn', 'index']) + shadowed_types() + loop_counter_rebound() + creation_fails_then_probe() + pointer_targets_across_user_types() + argument_type_errors_by_position()[::2]
+    if pid == 'C06': return array_scope_matrix() + side_effects_in_subexpressions() + redeclared_bounds(rng) + retyped_sites(rng, ['index']) + array_cross_types() + byref_argument_resolution() + state_dependent_type_bodies() + undeclared_field_vs_names()
+    if pid == 'C07': return shadowed_types() + alias_then_replace() + undeclared_field_vs_names() + side_effects_in_subexpressions() + state_dependent_type_bodies() + parameter_list_shapes()
     if pid == 'C08': return scope_change_in_activation(rng) + scalar_and_array_share_a_name() + loop_counter_rebound()
-    if pid == 'C09': return deref_node_reuse() + alias_then_replace() + pointer_to_implicit_record() + escaping_pointers() + alias_used_after_value_replaced()
+    if pid == 'C09': return deref_node_reuse() + alias_then_replace() + pointer_to_implicit_record() + escaping_pointers() + alias_used_after_value_replaced() + pointer_targets_across_user_types()
     if pid == 'C10':
         c = far_lines() + far_lines(runtime=True)
         for x in c: x.meta['relevant'] = ('stdout', 'exit', 'diags')
         return c
-    if pid == 'C11': return far_lines() + far_lines(runtime=True) + empty_comment_faults() + failing_record_creation() + errors_below_statements()
-    if pid == 'C12': return lexer_failure_then_probe(rng) + failing_record_creation() + runfile_with_handles() + creation_fails_then_probe()
+    if pid == 'C11': return far_lines() + far_lines(runtime=True) + empty_comment_faults() + failing_record_creation() + errors_below_statements() + stray_signals_after_legal_ones()
+    if pid == 'C12': return lexer_failure_then_probe(rng) + failing_record_creation() + runfile_with_handles() + creation_fails_then_probe() + failing_calls_then_probes()
     if pid == 'C13': return [c for c in identifier_targets_by_binding() if 'getrecord' in c.meta['gen']] + far_dates_files()[0] + records_with_array_fields_in_files() + scalar_and_array_share_a_name() + alias_used_after_value_replaced()
     if pid == 'C14': return far_seek() + records_with_array_fields_in_files() + alias_used_after_value_replaced()
-    if pid == 'C15': return far_dates_files()[0] + far_dates_output() + [c for c in identifier_targets_by_binding() if 'readfile' in c.meta['gen']] + runfile_with_handles() + alias_used_after_value_replaced()
-    if pid == 'C16': return pedantic_tail_with_files() + side_effects_in_subexpressions() + runfile_with_handles()
-    if pid == 'C17': return lexer_failure_then_probe(rng) + nodes_evaluated_twice(rng) + reentrant_nodes()
-    if pid == 'C18': return far_dates_output() + nodes_evaluated_twice(rng) + date_literal_positions() + lexer_failure_then_probe(rng)
-    if pid == 'C19': return array_cross_types() + shadowed_types() + nodes_evaluated_twice(rng) + callers_locals_are_invisible()
-    if pid == 'C20': return nested_undeclared(rng) + shadowed_condition(rng) + pedantic_tail_with_files() + declaredness_changes_per_activation() + creation_fails_then_probe()
+    if pid == 'C15': return far_dates_files()[0] + far_dates_output() + [c for c in identifier_targets_by_binding() if 'readfile' in c.meta['gen']] + runfile_with_handles() + alias_used_after_value_replaced() + continue_and_break_positions() + input_at_end_of_input_with_files_open()[::3]
+    if pid == 'C16': return pedantic_tail_with_files() + side_effects_in_subexpressions() + runfile_with_handles() + input_at_end_of_input_with_files_open()
+    if pid == 'C17': return lexer_failure_then_probe(rng) + nodes_evaluated_twice(rng) + reentrant_nodes() + history_independence() + failing_calls_then_probes()
+    if pid == 'C18': return far_dates_output() + nodes_evaluated_twice(rng) + date_literal_positions() + lexer_failure_then_probe(rng) + history_independence()
+    if pid == 'C19': return array_cross_types() + shadowed_types() + nodes_evaluated_twice(rng) + callers_locals_are_invisible() + pointer_targets_across_user_types() + argument_type_errors_by_position()
+    if pid == 'C20': return nested_undeclared(rng) + shadowed_condition(rng) + pedantic_tail_with_files() + declaredness_changes_per_activation() + creation_fails_then_probe() + names_differing_in_case()
     return []
